@@ -60,7 +60,7 @@ class Query:
     in_u32() are symbolic.  witnesses: names of WITNESS_AT points that must be reachable (twin run)."""
 
     def __init__(self, name, defs=(), witnesses=(), unwind=2, timeout=900, est_gb=3, hardcap=40,
-                 extra_cbmc=(), sample=None, profile=None, required_sat=(), harness_unwind=18):
+                 extra_cbmc=(), sample=None, profile=None, required_sat=(), harness_unwind=18, trust_solver=False, expect_fail=False):
         self.name = name
         self.defs = list(defs)
         self.witnesses = list(witnesses)
@@ -71,6 +71,8 @@ class Query:
         self.extra_cbmc = list(extra_cbmc)
         self.sample = sample
         self.harness_unwind = harness_unwind
+        self.expect_fail = expect_fail     # negative control: a deliberately broken variant that the query MUST refute
+        self.trust_solver = trust_solver   # the counterexample is a SCHEDULE (C09): it cannot be replayed natively; report it from the solver trace
         self.required_sat = list(required_sat)   # witnesses whose UNREACHABILITY is itself a violation (existential claims)
         self.profile = profile      # concrete VIN vectors of this shape: per-loop bounds are learnt from them (then checked)
 
@@ -521,7 +523,7 @@ class Runner:
                 self.extra_cov.setdefault('compile_obligations', []).append({'name': name, 'holds': p.returncode == 0})
                 if p.returncode != 0:
                     os.makedirs(os.path.join(EVID, 'replay'), exist_ok=True)
-                    rp = os.path.join(VERIF, 'evidence', 'replay', '%s_obligation_%s.json' % (self.prop, re.sub(r'\W', '_', name)))
+                    rp = os.path.join(EVID, 'replay', '%s_obligation_%s.json' % (self.prop, re.sub(r'\W', '_', name)))
                     json.dump({'property': self.prop, 'kind': 'compile-time obligation failed', 'name': name, 'command': cmd, 'diagnostics': p.stdout[-4000:],
                                'unit': u.name, 'defs': [], 'vin': [], 'assertion': name}, open(rp, 'w'), indent=1)
                     self.say('[%s]   compile-time obligation failed: %s\n%s' % (self.prop, name, p.stdout[-1500:]))
@@ -559,7 +561,18 @@ class Runner:
                     self.diff_runs += 1
                     if b[0] == 33:
                         raise Inconclusive('corpus input exceeds model capacity (unit %s defs %s vin %s %s)' % (u.name, defs, vin, rtenv))
-                    if a[0] not in (0, 10, 11) and a[0] != b[0]:
+                    if a[0] == 10 or a[0] in (66, 67, 124) or a[0] < 0 or a[0] >= 128:
+                        # the g++/ASan build of the real code fails on a corpus input: that is a violation in its own right (found by
+                        # the differential stage, before the solver is consulted); keep going so that the solver stage reports too
+                        os.makedirs(os.path.join(EVID, 'replay'), exist_ok=True)
+                        path = os.path.join(EVID, 'replay', '%s_%s_corpus_%d.json' % (self.prop, u.name, len(self.violations)))
+                        how = ([l for l in a[1].split('\n') if l.startswith('CHECK-FAIL')] or ['sanitizer / crash rc=%d: %s' % (a[0], (re.findall(r'(?:ERROR: AddressSanitizer|runtime error):?[^\n]*', a[2]) or ['?'])[0])])[0]
+                        json.dump({'property': self.prop, 'unit': u.name, 'query': 'differential corpus', 'defs': defs, 'vin': vin, 'rtenv': rtenv, 'assertion': how,
+                                   'native_rc': a[0], 'native_stdout': a[1][-2000:], 'native_stderr': a[2][-3000:], 'how': 'corpus input fails on the g++ build of the real code'}, open(path, 'w'), indent=1)
+                        self.say('[%s]   corpus input fails on the g++ build: %s (unit %s defs %s VIN=%s)' % (self.prop, how, u.name, ' '.join(defs), ','.join(map(str, vin))))
+                        self.violations.append(path)
+                        continue
+                    if a[0] not in (0, 11) and a[0] != b[0]:
                         raise Inconclusive('native run of corpus input failed rc=%d (unit %s defs %s vin %s %s): %s' % (
                             a[0], u.name, defs, vin, rtenv, a[2][-800:]))
                     if (a[0], a[1]) != (b[0], b[1]):
@@ -624,6 +637,13 @@ class Runner:
                 self._replay(u, q, kf_defs, 'loop bound', 'unwinding assertion does not converge: %s' % ','.join(r['loops']), r.get('vin', []), rec,
                              hang=True)
                 continue
+            if q.expect_fail:
+                rec['negative_control'] = True
+                if r['status'] != 'fails':
+                    self.inconclusive.append('negative control %s/%s was not refuted (status %s): the harness cannot see the defect class it is meant to detect' % (u.name, q.name, r['status']))
+                else:
+                    rec['negative_control_refuted'] = True
+                continue
             if r['status'] == 'fails':
                 seen = set()
                 for prop, desc, vin in r['failures']:
@@ -647,8 +667,10 @@ class Runner:
             if f.get('status') == 'fixed':
                 self.messages.append('fixed: property=%s %s %s' % (self.prop, f.get('commit', ''), f['what']))
         if self.violations:
-            for v in self.violations:
+            for v in self.violations[:12]:
                 self.say('VIOLATION property=%s replay=%s' % (self.prop, v))
+            if len(self.violations) > 12:
+                self.say('[%s] ... and %d more violations (all replay files are under %s)' % (self.prop, len(self.violations) - 12, os.path.join(EVID, 'replay')))
             return 1
         if self.inconclusive:
             for s in self.inconclusive:
@@ -667,6 +689,17 @@ class Runner:
 
     def _replay(self, u, q, kf_defs, prop, desc, vin, rec, hang=False):
         defs = q.defs + kf_defs
+        if q.trust_solver and not hang:
+            os.makedirs(os.path.join(EVID, 'replay'), exist_ok=True)
+            path = os.path.join(EVID, 'replay', '%s_%s_%s_%d.json' % (self.prop, u.name, re.sub(r'\W', '_', q.name), len(self.violations)))
+            json.dump({'property': self.prop, 'unit': u.name, 'query': q.name, 'defs': defs, 'vin': vin, 'cbmc_property': prop, 'assertion': desc,
+                       'how': 'counterexample from the solver (inputs and schedule choices in vin, in the order the harness draws them); this harness quantifies over '
+                              'thread schedules, which an ordinary native run cannot be forced to follow, so the trace is reported without native replay'},
+                      open(path, 'w'), indent=1)
+            rec.setdefault('counterexamples', []).append({'cbmc_property': prop, 'desc': desc, 'vin': vin, 'reproduced': None, 'how': 'schedule counterexample, not natively replayable'})
+            self.say('[%s]   solver counterexample (schedule): %s | VIN=%s' % (self.prop, desc, ','.join(map(str, vin))))
+            self.violations.append(path)
+            return
         exe = self._native(u, defs)
         rc, out, err = run_native(exe, vin, timeout=10 if hang else 20)
         confirmed = False
@@ -685,7 +718,7 @@ class Runner:
                                                       'reproduced': confirmed, 'how': how})
         if confirmed:
             os.makedirs(os.path.join(EVID, 'replay'), exist_ok=True)
-            path = os.path.join(VERIF, 'evidence', 'replay', '%s_%s_%s_%d.json' % (self.prop, u.name, re.sub(r'\W', '_', q.name), len(self.violations)))
+            path = os.path.join(EVID, 'replay', '%s_%s_%s_%d.json' % (self.prop, u.name, re.sub(r'\W', '_', q.name), len(self.violations)))
             json.dump({'property': self.prop, 'unit': u.name, 'query': q.name, 'defs': defs, 'vin': vin, 'cbmc_property': prop,
                        'assertion': desc, 'native_rc': rc, 'native_stdout': out[-2000:], 'native_stderr': err[-3000:], 'how': how},
                       open(path, 'w'), indent=1)
@@ -715,7 +748,7 @@ class Runner:
             self.inconclusive.append('MODEL-DIVERGENCE: solver says "%s" is impossible but the native build exhibits it' % w)
             return
         os.makedirs(os.path.join(EVID, 'replay'), exist_ok=True)
-        path = os.path.join(VERIF, 'evidence', 'replay', '%s_%s_%s_%d.json' % (self.prop, u.name, re.sub(r'\W', '_', q.name), len(self.violations)))
+        path = os.path.join(EVID, 'replay', '%s_%s_%s_%d.json' % (self.prop, u.name, re.sub(r'\W', '_', q.name), len(self.violations)))
         json.dump({'property': self.prop, 'unit': u.name, 'query': q.name, 'defs': q.defs + kf_defs, 'vin': [], 'kind': 'existential claim refuted',
                    'assertion': 'no values exist for which: ' + w, 'native_samples_without_witness': tried,
                    'how': 'the solver proved the witness unreachable for ALL inputs; %d random native runs agree' % tried}, open(path, 'w'), indent=1)
